@@ -68,6 +68,11 @@ def run(chk):
     chk.rule("R05.4", "no unwrap-on-None / explicit panic reachable in the parse loops (finite abstract state fixpoint)")
     kill_rules(chk, w)
     literal_rules(chk, w)
+    # "tags ... consistent with the input": every collected tag string lands in its own slot (shared with C03 / C04)
+    from . import fmt as _fmt
+    chk.rule("R05.5", "the parsers flatten the collected tag strings one entry per string, in order")
+    for upd in ("update_tokenized", "update_partial_annotation"):
+        _fmt.tag_flatten_rule(chk, w, "R05.5", C.find_parser(w, C.S + "::" + upd))
     # ---------------------------------------------------------------- R05.3
     r053(chk, w)
     # ---------------------------------------------------------------- R05.4
